@@ -144,6 +144,9 @@ pub struct Child {
     /// the process starts in a working directory that has been deleted under it (another process removed it): every path it is
     /// given is absolute, so nothing it is asked to do depends on the current directory; getcwd() fails with ENOENT
     pub deleted_cwd: bool,
+    /// stdout (and stdin) of the tool is a terminal: it runs under script(1), which gives it a pseudo-terminal and relays what it
+    /// prints (the terminal turns every LF into CR LF on the way; comparisons strip CR on both sides). stderr goes to /dev/null.
+    pub stdout_tty: bool,
     /// name of the shim trace file in cwd (several children alive at once in one directory need one each)
     pub trace_name: Option<String>,
 }
@@ -161,6 +164,7 @@ impl Child {
             argv0: None,
             program: None,
             deleted_cwd: false,
+            stdout_tty: false,
             trace_name: None,
         }
     }
@@ -331,6 +335,11 @@ fn prepare(cwd: &Path, c: &Child) -> (Command, Option<PathBuf>, PathBuf, PathBuf
             prev_takes_path = a == "-o" || a == "--heap-log" || a == "--output-path";
             cmd.arg(abs);
         }
+    } else if c.stdout_tty && c.program.is_none() {
+        let q = |a: &str| format!("'{}'", a.replace('\'', "'\\''"));
+        let line = std::iter::once(q(&bin.to_string_lossy())).chain(c.args.iter().map(|a| q(a))).collect::<Vec<_>>().join(" ");
+        cmd = Command::new("/usr/bin/script");
+        cmd.arg("-qefc").arg(format!("{} 2>/dev/null", line)).arg("/dev/null");
     } else {
         cmd = Command::new(&bin);
         if let Some(a0) = &c.argv0 {
@@ -352,7 +361,7 @@ fn prepare(cwd: &Path, c: &Child) -> (Command, Option<PathBuf>, PathBuf, PathBuf
         cmd.env("FMLSIM_SEED", s.seed.to_string());
         if c.deleted_cwd { cmd.env("FMLSIM_TRACE", trace_path.to_string_lossy().to_string()); } else { cmd.env("FMLSIM_TRACE", &trace_name); }
         cmd.env("FMLSIM_CPU", CPU_LIMIT_S.to_string());
-        if c.program.is_some() || c.deleted_cwd {
+        if c.program.is_some() || c.deleted_cwd || c.stdout_tty {
             // a wrapper (bash) runs the binary: only the binary is the system under test; the shell sees an undisturbed world
             cmd.env("FMLSIM_ONLY", "/fml");
         }
